@@ -306,7 +306,7 @@ def policy_harness(cname, k, first=None):
                 op = ["read", "write", "delete", "add_trait", "remove_trait", "write_bad"][ex.choice("op%d" % step, 6)]
                 name = names[ex.choice("name%d" % step, len(names))]
             if op == "add_trait":
-                if name in o._class_traits() and kind_of(o._class_traits()[name]) != "trait":
+                if name in o._class_traits() and kind_of(o._class_traits()[name]) not in ("trait", "event"):
                     continue
                 o.add_trait(name, Str("inst"))          # real (compiled) call: concrete
                 inst[name] = o._instance_traits()[name]
